@@ -29,6 +29,9 @@ TagOfVal(T, v) ==
     [] T.k = "ptr" -> TagOfVal(T.e, v)
     [] T.k = "iface" -> TagOfVal(v.ty, v.v)
     [] T.k \in {"slice", "array"} ->
+         \* a slice of interface values is a list whatever it holds (it is what a list decodes to); typed arrays
+         \* come from slices of plain integers only
+         IF T.e.k = "iface" THEN 9 ELSE
          LET et == IF Len(v) > 0 THEN TagOfVal(T.e, v[1]) ELSE StaticTag(T.e) IN
          CASE et = 1 -> 7 [] et = 3 -> 11 [] et = 4 -> 12 [] OTHER -> 9
 IsEmptyVal(T, v) ==
